@@ -4,6 +4,22 @@ use super::*;
 use crate::verif_spec::fmt;
 use crate::verif_spec::src::Src;
 
+pub(crate) fn check_color_profile(d: &[u8]) -> bool {
+    let got = parse_chunk(d);
+    let decoded_ok = got.is_ok();
+    match (&got, fmt::color_profile(d)) {
+        (Ok(p), Some(ty)) => {
+            assert!((p.profile_type == ColorProfileType::None) == (ty == 0) && (p.profile_type == ColorProfileType::Srgb) == (ty == 1), "profile type");
+            assert!(p.fixed_gamma.is_none(), "no gamma");
+        }
+        (Err(_), None) => {}
+        (Ok(_), None) => assert!(false, "an unsupported colour profile (ICC, fixed gamma, unknown type) or a short chunk was accepted"),
+        (Err(_), Some(_)) => assert!(false, "a none/sRGB profile chunk was rejected"),
+    }
+    core::mem::forget(got);
+    decoded_ok
+}
+
 macro_rules! cp_shape {
     ($hname:ident, $n:expr) => {
         crate::verif_harness! {
@@ -12,17 +28,9 @@ macro_rules! cp_shape {
             #[kani::stub(std::fmt::format, crate::verif_spec::stubs::format_stub)]
             fn $hname(s) {
                 let d: [u8; $n] = s.bytes();
-                match (parse_chunk(&d), fmt::color_profile(&d)) {
-                    (Ok(p), Some(ty)) => {
-                        assert!((p.profile_type == ColorProfileType::None) == (ty == 0) && (p.profile_type == ColorProfileType::Srgb) == (ty == 1), "profile type");
-                        assert!(p.fixed_gamma.is_none(), "no gamma");
-                    }
-                    (Err(_), None) => {}
-                    (Ok(_), None) => assert!(false, "an unsupported colour profile (ICC, fixed gamma, unknown type) or a short chunk was accepted"),
-                    (Err(_), Some(_)) => assert!(false, "a none/sRGB profile chunk was rejected"),
-                }
-                crate::vcover!(parse_chunk(&d).is_ok(), "accepted");
-                crate::vcover!(parse_chunk(&d).is_err(), "refused");
+                let ok = check_color_profile(&d);
+                crate::vcover!(ok, "accepted");
+                crate::vcover!(!ok, "refused");
             }
         }
     };
